@@ -473,7 +473,7 @@ fn sched_body(sc: SCase) -> Arc<dyn Fn(&Arc<Sched>) -> SObs + Send + Sync> {
                 h2.shutdown();
                 let r = expect_all(&w2, &a2, "missing-after-shutdown", "when the second, concurrent shutdown() returned").map_err(|f| (f.clause.to_string(), f.detail));
                 *slot2.lock().unwrap() = r;
-                std::mem::forget(h2);
+                drop(h2);
             });
             Some((jh, slot))
         } else {
